@@ -297,6 +297,8 @@ class Interp(object):
                 ga = v.cls.find_method("__getattr__")
                 if ga is not None:
                     return self.call_function(ga, [v, attr], {})
+            if attr in v.methods:
+                return NativeFn("%s.%s" % (v.clsname(), attr), v.methods[attr])
             if isinstance(v.cls, str) and (v.cls, attr) in B.ABSTRACT_METHODS:
                 return BuiltinMethod(v, attr)
             raise PyRaise("AttributeError", "%s has no attribute %s" % (v.clsname(), attr))
